@@ -478,6 +478,33 @@ func c08Expansion(c *Ctx, fnName, table string) {
 		return true
 	})
 	c.Check(bad == "", "C08-R4", fnName+":no name-specific filter", fi.Decl.Pos(), "no condition compares against a string constant", "condition `"+bad+"` filters on a specific name")
+	// the "already listed" test is an equality: no prefix/substring/regexp matching of disabled entries
+	fuzzy := ""
+	ast.Inspect(fi.Decl.Body, func(n ast.Node) bool {
+		switch x := n.(type) {
+		case *ast.CallExpr:
+			if fn := Callee(info, x); fn != nil && fn.Pkg() != nil {
+				switch fn.Pkg().Path() {
+				case "strings", "path", "path/filepath":
+					fuzzy = exprStr(x)
+				}
+			}
+		case *ast.BinaryExpr:
+			if t := info.TypeOf(x.X); t != nil && t.String() == "string" {
+				switch x.Op {
+				case token.EQL, token.NEQ, token.ADD:
+				default:
+					fuzzy = exprStr(x)
+				}
+			}
+		case *ast.SliceExpr:
+			if t := info.TypeOf(x.X); t != nil && t.String() == "string" {
+				fuzzy = exprStr(x)
+			}
+		}
+		return true
+	})
+	c.Check(fuzzy == "", "C08-R4", fnName+":names compared by equality only", fi.Decl.Pos(), "no prefix/substring matching", "`"+fuzzy+"` matches names loosely: a check can be taken as already disabled because of a similarly named entry")
 	// an append to Checks.Disabled exists
 	found := false
 	ast.Inspect(fi.Decl.Body, func(n ast.Node) bool {
@@ -642,4 +669,33 @@ func c08Matching(c *Ctx) {
 		return true
 	})
 	c.Check(nContains >= 2, "C08-R6", "parsedRule.isEnabled:rule enable+disable lookups", pr.Decl.Pos(), "both lookups present", "rule{enable}/rule{disable} lookups missing")
+	// a later rule{} block may still disable the check: the scan over config rules never returns true early
+	sigPR := pr.Obj.Type().(*types.Signature)
+	if i := paramIndex(sigPR, "cfgRules"); i >= 0 {
+		cfgRules := sigPR.Params().At(i)
+		var loop *ast.RangeStmt
+		ast.Inspect(pr.Decl.Body, func(n ast.Node) bool {
+			if rs, ok := n.(*ast.RangeStmt); ok && objOf(pinfo, rs.X) == cfgRules {
+				loop = rs
+			}
+			return true
+		})
+		okLoop := loop != nil
+		if loop != nil {
+			for _, r := range returnsIn(loop.Body.List) {
+				if len(r.Results) != 1 || exprStr(r.Results[0]) != "false" {
+					okLoop = false
+				}
+			}
+			inspectNoLit(loop.Body, func(n ast.Node) bool {
+				if b, ok := n.(*ast.BranchStmt); ok && b.Tok == token.BREAK {
+					okLoop = false
+				}
+				return true
+			})
+		}
+		c.Check(okLoop, "C08-R6", "parsedRule.isEnabled:all rule{} blocks scanned before enabling", pr.Decl.Pos(), "no early positive exit", "the scan over rule{} blocks can stop at an `enable` before a later matching `disable = [name]` is seen")
+	} else {
+		c.Undecided("C08-R6", "parsedRule.isEnabled:cfgRules parameter", pr.Decl.Pos(), "parameter not found")
+	}
 }
